@@ -93,6 +93,21 @@ pub fn for_single<S: Sch>(rec: &mut Rec, w: Width, mut f: impl FnMut(&mut Rec, &
         c_cfgs = vec![KeyCfg::uni(8, 8, 1, None)];
     }
     cfgs.extend(c_cfgs.into_iter().take(take_c));
+    // linear codes: one key built through the public constructor WITHOUT the well-formedness check
+    // (the verifier then follows its other branch; every width includes it)
+    match S::NAME {
+        "LIG" => {
+            let mut c = KeyCfg::uni(8, 8, 1, None);
+            c.lc = Some((128, 4, false));
+            cfgs.push(c);
+        }
+        "MLL" | "BRK" => {
+            let mut c = KeyCfg::ml(if S::NAME == "BRK" { 3 } else { 2 });
+            c.lc = Some((128, 2, false));
+            cfgs.push(c);
+        }
+        _ => {}
+    }
     for cfg in cfgs {
         let shapes = if w == Width::Wide { S::shapes(&cfg, rec.seed) } else { shapes_short::<S>(&cfg, rec.seed) };
         let pts: Vec<_> = S::points(&cfg, rec.seed).into_iter().take(if w == Width::Narrow { 1 } else { 2 }).collect();
